@@ -99,11 +99,18 @@ class PartsFrame:
         if name == "columns":
             return frames.ColumnIndex(list(self.names))
         if name == "copy":
-            return lambda deep=True: self.map(lambda p: p._new())
+            def copy(deep=True):
+                if deep is not True:
+                    raise Undecided("copy(deep=False) aliases the data")
+                return self.map(lambda p: p._new())
+
+            return copy
         if name == "reset_index":
 
             def reset_index(drop=False, inplace=False, **kw):
                 only_kw("levels.reset_index", kw)
+                if inplace:
+                    raise Undecided("reset_index(inplace=True)")
                 if not drop:
                     raise Undecided("reset_index(drop=False) on a multi-level table")
                 return self.map(lambda p: p._new(index=("range", p.axis.name)))
